@@ -370,6 +370,50 @@ def _thread_returns(nj, ret_blocks, ret_local, dest, target):
             blocks[rb]["term"] = dict(blocks[rb]["term"], target=len(blocks) - 1)
 
 
+def _generic_map(h, t):
+    """Generic parameter name of the spliced helper -> the argument it is instantiated with at this call."""
+    gs = h.get("generics") or []
+    args = (t.get("callee") or {}).get("args") or []
+    if not gs or len(gs) != len(args):
+        return {}
+    return {g: a for g, a in zip(gs, args) if g != a and not str(g).startswith("'")}
+
+
+def _resolve_generic_callee(term, gmap, by_key):
+    """A call `<P as Trait>::method` inside a spliced generic helper, with P now known: when the crate has that impl,
+    the call is named after it (and can be spliced / evaluated like any other crate function)."""
+    c = term.get("callee") or {}
+    if not c.get("trait") or not c.get("args"):
+        return term
+    if c.get("key") and c["key"] != "%s::%s" % (c["trait"], c.get("name")):
+        return term  # already names an impl / a concrete function
+    import re as _re
+
+    def sub(x):
+        x = str(x)
+        for g, a in gmap.items():
+            x = _re.sub(r"(?<![A-Za-z0-9_])%s(?![A-Za-z0-9_])" % _re.escape(str(g)), str(a), x)
+        return x
+
+    args = [sub(a) for a in c["args"]]
+    if args == list(c["args"]):
+        return term
+    # the helper's own type parameter means nothing in the caller: the callee is named by what it is instantiated with
+    nc = dict(c, args=args)
+    if c.get("args_full"):
+        nc["args_full"] = [sub(a) for a in c["args_full"]]
+    if c.get("self_ty"):
+        nc["self_ty"] = sub(c["self_ty"])
+    key = "<%s as %s>::%s" % (args[0], c["trait"], c.get("name"))
+    if key not in by_key:
+        pre, suf = "<%s as %s<" % (args[0], c["trait"]), ">::%s" % c.get("name")
+        cands = [k for k in by_key if k.startswith(pre) and k.endswith(suf)]
+        key = cands[0] if len(cands) == 1 else None
+    if key is not None:
+        nc["key"] = key
+    return dict(term, callee=nc)
+
+
 def inline_helpers(fns_json):
     """fns_json: list of function JSON objects.  Returns a list in which every caller of a private helper has the
     helper's body spliced in (helpers themselves stay in the list, also with their own helper calls inlined)."""
@@ -377,7 +421,7 @@ def inline_helpers(fns_json):
     # functions whose body differs from the pinned tree: combinators with closure literals become plain control flow,
     # tests of values with a known constructor are threaded (see desugar.py)
     try:
-        from .desugar import desugar_combinators, thread_known_ctors, splice_closure_calls
+        from .desugar import desugar_combinators, thread_known_ctors, splice_closure_calls, desugar_for_each
 
         # (the tag-table conversions of the wire enums stay as they are: the codec rules fold them concretely, which
         # wants the branch-free combinator form)
@@ -386,6 +430,7 @@ def inline_helpers(fns_json):
             repl = {}
             for j in changed:
                 nj = desugar_combinators(j, by_key)
+                nj = desugar_for_each(nj, by_key)
                 nj = splice_closure_calls(nj, by_key)
                 nj = thread_known_ctors(nj)
                 if nj is not j:
@@ -437,8 +482,11 @@ def inline_helpers(fns_json):
                 if ai + 1 <= h["arg_count"]:
                     nj["blocks"][i]["stmts"].append({"k": "assign", "place": {"l": lo + ai + 1}, "rv": {"use": a}, "sp": sp})
             nj["blocks"][i]["term"] = {"k": "goto", "target": bo, "sp": sp, "inlined_call": hk}
+            gmap = _generic_map(h, t)
             for hb in h["blocks"]:
                 nb = _remap(hb, lo, bo, po if h.get("promoted") else 0)
+                if gmap and nb["term"]["k"] in ("call", "tailcall"):
+                    nb["term"] = _resolve_generic_callee(nb["term"], gmap, by_key)
                 if nb["term"]["k"] == "return":
                     nb["stmts"] = list(nb["stmts"]) + [{"k": "assign", "place": t["dest"], "rv": {"use": {"move": {"l": lo}}}, "sp": sp}]
                     if t.get("target") is None:
